@@ -269,6 +269,11 @@ def urlNorm (scheme host path query : Str) : Str :=
   let path := if path.isEmpty then ['/'] else path
   s ++ (str% "://") ++ auth ++ path ++ (if query.isEmpty then [] else '?' :: pctNorm query)
 
+/-- … with the "?" of a query that is present and empty: "http://example.com/?" cannot be assumed
+    equivalent to "http://example.com/" (RFC 3986 §6.2.3) -/
+def urlNormQ (scheme host path query : Str) (forceQuery : Bool) : Str :=
+  if forceQuery && query.isEmpty then urlNorm scheme host path query ++ ['?'] else urlNorm scheme host path query
+
 /-- same origin: scheme, host and effective port -/
 def sameOrigin (s1 h1 s2 h2 : Str) : Bool :=
   let (a, p) := splitAuthority h1
